@@ -1,8 +1,9 @@
 //! C03: histories of Bytes<GuestAddress> operations (write/read/slices/objects/atomics/in-memory
 //! streams) on GuestMemoryMmap and on MockMem (see c02.rs); after every step ALL region contents
 //! are re-read through the raw host pointers.
-//! case:  kind mode [starts] [lens] [initial bytes]   then per op:  opcode addr count [data]
-//! obs :  per op:  k(1 Ok, 2 Err, 3 panic) v(count | error class) e1 e2 [data] [all region bytes]
+//! case:  kind(0 anonymous mmap, 1 MockMem, 2 file-backed mmap) mode [starts] [lens] [initial bytes]
+//!        then per op:  opcode addr count [data]   (opcodes 12/13: data = chunk :: source bytes)
+//! obs :  per op:  k(1 Ok, 2 Err, 3 panic, 9 backing file differs from memory) v(count | error class) e1 e2 [data] [all region bytes]
 use super::c02::{build, err_class, lay_toks, layout_of, small_layout, universe, Built, Mem, TOP};
 use crate::tok::n;
 use crate::{util, Rng, Suite, Tier, Tok};
@@ -214,7 +215,13 @@ fn exec(case: &[Tok]) -> Vec<Tok> {
             Mem::Mock(m) => step(m, opc, addr, count, &d, alt),
         });
         let o = r.unwrap_or(Ob { k: 3, v: 0, e1: 0, e2: 0, data: vec![] });
-        out.extend([n(o.k), n(o.v), n(o.e1), n(o.e2), Tok::of_bytes(&o.data), Tok::of_bytes(&b.dump())]);
+        let mut o = o;
+        let dump = b.dump();
+        // file-backed regions: the backing files must hold exactly what the host pointers show
+        if kind == 2 && b.dump_files() != dump {
+            o.k = 9;
+        }
+        out.extend([n(o.k), n(o.v), n(o.e1), n(o.e2), Tok::of_bytes(&o.data), Tok::of_bytes(&dump)]);
     }
     out
 }
@@ -224,8 +231,9 @@ fn gen(rng: &mut Rng, tier: Tier, emit: &mut dyn FnMut(Vec<Tok>)) {
     let u = universe();
     let nhist = if tier == Tier::Quick { 3000 } else { 60000 };
     for h in 0..nhist {
-        let kind = (h % 2) as u64;
-        let lay = small_layout(rng, kind, if h % 4 == 0 { 4 } else { 9 }, 4);
+        // anonymous mmap / MockMem / file-backed mmap / MockMem
+        let kind = [0u64, 1, 2, 1][(h % 4) as usize];
+        let lay = small_layout(rng, if kind == 2 { 0 } else { kind }, if h % 8 < 2 { 4 } else { 9 }, 4);
         let total: u64 = lay.iter().map(|x| x.1).sum();
         let mut case = lay_toks(kind, &lay);
         case.push(Tok::of_bytes(&rng.bytes(total as usize)));
